@@ -3,10 +3,12 @@
 EXTENDS Naturals, Sequences, SequencesExt, FiniteSets, Json, IOUtils, TLC
 Dom == [
   session |-> {"S1", "S2", "S3", "N"},                 \* N: a client that never keeps the session cookie
-  host    |-> {"h1.example.com", "sub.h1.example.com", "h2.example.com"},
+  host    |-> {"h1.example.com", "sub.h1.example.com", "h2.example.com", "tenant-a.example.co.uk", "tenant-b.other.co.uk"},
   path    |-> {"/", "/a", "/a/b", "/other"},
   op      |-> {"none", "set", "overwrite", "delete-maxage", "delete-expires", "path-scoped", "domain-scoped", "secure", "httponly",
-               "two-cookies", "same-name-other-path"},
+               "two-cookies", "same-name-other-path",
+               \* Domain attributes a compliant jar has to refuse or scope: a public suffix, a foreign domain, a parent domain
+               "domain-public-suffix", "domain-foreign", "domain-parent", "samesite", "expires-future", "maxage-zero-then-set"},
   extra   |-> {"none", "one", "two", "same-name-as-jar"} ]
 VARIABLE x
 GInit == x = 0
